@@ -1,4 +1,5 @@
 import LZ4V.Proofs.BlockHub
+import LZ4V.Proofs.FastMain
 /-!
 # C06 — compressed blocks conform to the block format (specification part)
 -/
@@ -22,5 +23,22 @@ theorem serialize_decodes_to_exec (seqs : List Seq) (last out : List UInt8)
 /-- non-vacuity / sanity of `endConditions`: the 17-byte block for "aaaaaaaaaaaaaaaaaaaa" style data -/
 example : endConditions [⟨[97], 1, 7⟩] [1, 2, 3, 4, 5] = true ∧ endConditions [⟨[97], 1, 6⟩] [1, 2, 3, 4, 5] = false ∧
           endConditions [⟨[97], 1, 20⟩] [1, 2, 3, 4] = false := by decide
+
+/-- **Every block the fast compressor (model) emits conforms to the format**: it is the serialisation of a sequence list
+    that spells out the input, every match length ≥ 4, every offset in 1..65535, the last 5 bytes literals and the last
+    match starting at least 12 bytes before the end — for every input, hash function, table size and acceleration. -/
+theorem fast_compressor_conforms (P : LZ4V.Model.Fast.Params) (src : Array UInt8) (tableSize : Nat)
+    (hb : P.byU16 = true → src.size < 65547) (ha : 1 ≤ P.accel) (blk : List UInt8)
+    (h : LZ4V.Model.Fast.compress P src tableSize = some blk) :
+    ∃ seqs last, blk = serialize seqs last ∧ ValidParse [] seqs last src.toList ∧
+      (∀ s ∈ seqs, 4 ≤ s.ml ∧ 1 ≤ s.off ∧ s.off ≤ 65535) ∧ endConditions seqs last = true ∧ covered seqs last = src.size :=
+  (LZ4V.Model.Fast.compress_good P src tableSize hb ha blk h).parse
+
+/-- the same for the instance executed by the judge next to the real library -/
+theorem fast_compressor_conforms_exec (src : Array UInt8) (acceleration : Int) (cap bound : Nat) (blk : List UInt8)
+    (h : LZ4V.Model.Fast.compressFast src acceleration cap bound = some blk) :
+    ∃ seqs last, blk = serialize seqs last ∧ ValidParse [] seqs last src.toList ∧
+      (∀ s ∈ seqs, 4 ≤ s.ml ∧ 1 ≤ s.off ∧ s.off ≤ 65535) ∧ endConditions seqs last = true ∧ covered seqs last = src.size :=
+  (LZ4V.Model.Fast.compressFast_good src acceleration cap bound blk h).parse
 
 end LZ4V.C06
